@@ -407,7 +407,12 @@ class Driver:
             uid = self.rng.choice(stems)
             self.count("post_with_uid_spelling_a_member_name")
         body, uid, tok = self.body_for("x" + col.ext(), uid)
-        self.w.post(col.path, body, W.CT[col.kind], uid=uid, token=tok)
+        ct = W.CT[col.kind]
+        if self.rng.random() < 0.4:
+            # the media type as most clients send it, with a parameter
+            ct += self.rng.choice(["; charset=utf-8", ";charset=UTF-8", "; charset=\"utf-8\""])
+            self.count("post_with_content_type_parameter")
+        self.w.post(col.path, body, ct, uid=uid, token=tok)
         return [col.path]
 
     def op_delete(self):
